@@ -4,6 +4,10 @@ explicit query it abbreviates.
 Implementation side: the real `an(entity_matching(T, dom)(**kwargs)).evaluate()` over harness-defined `Symbol`
 dataclasses (props/c11_classes.py).  Observation: the SET of result rows, a row being the values of the query's selected
 expressions in order (objects by identity = index in the case's object table), or the class of the escaping exception.
+A case may carry `steps`: the query object is built once and evaluated before the first and after every step (a step =
+attribute assignments on the real objects, creation of objects, dropping of objects); the observation then is the
+` | `-separated list of the per-evaluation observations, and the model/spec of the k-th evaluation is the pattern on the
+data of that moment (`Match.runSeq`, theorem `C11_history_independent`).
 
 The Lean spec printed by the driver is cross-checked on every case against `oracle_rows`, a direct Python predicate
 over the real objects that never looks at the Lean side or at krrood (run-time `isinstance`, `==`, `in`, `set`).
@@ -24,6 +28,8 @@ THEOREMS = [
     "KrroodVerif.Match.C11_full",
     "KrroodVerif.Match.C11_equiv_gen",
     "KrroodVerif.Match.C11_matches_iff_rows",
+    "KrroodVerif.Match.C11_history_independent",
+    "KrroodVerif.Match.C11_seq_equiv_partial",
     "KrroodVerif.Match.chain_wit_assigns",
     "KrroodVerif.Match.wit_iff_matchesAssigns",
     "KrroodVerif.Match.existsFilter_segments",
@@ -45,6 +51,8 @@ TRUSTED = [
     "this correspondence harness, the S-expression driver and the independent Python oracle for the Lean spec",
 ]
 ASSUMPTIONS = [
+    "between two evaluations of one query object only attributes of the objects change (the domain list and the "
+    "pattern's literal containers are not edited); edits keep the data conforming to the annotations",
     "objects conform to their dataclass annotations (a List[Drawer] field holds a list of Drawer instances, ...)",
     "dataclass __eq__/__hash__ as generated (eq=True: same class and equal fields; eq=False: identity); "
     "object truthiness is the default (always true); attribute access has no side effects",
@@ -57,7 +65,11 @@ RULE = ("corpus, then random patterns (depth<=3 over Cabinet/Drawer/Handle-like 
         "reference, relationship-collection and builtin-collection attributes and subclasses; every value form: plain "
         "scalar/object/list, match/match_any/match_all/select/select_any/select_all on a list, nested match/select with "
         "declared, subclass or no type) over random object graphs with value-equal distinct handles, shared and equal "
-        "collections across parents, empty collections, mixed-type and empty domains; non-trivial = the specified "
+        "collections across parents, empty collections, mixed-type and empty domains; 35% of the cases evaluate the "
+        "SAME query object again (up to 3 evaluations) after 1-3 edits per step drawn from the same vocabulary: new "
+        "scalar values, new lists (also replaced in place), other or newly created nested objects, objects unlinked, "
+        "dropped and replaced by new ones (address reuse) - expected answer of every evaluation = the pattern on the "
+        "data of that moment; non-trivial = the specified "
         "answer is neither empty nor all candidate elements; distinct by case text")
 
 # ---------------------------------------------------------------------------------------------- static description
@@ -133,7 +145,27 @@ def sx_case(c) -> str:
         f" (o {o['cls']} {_b(VEQ[o['cls']])}" + "".join(f" ({k} {sx_val(v)})" for k, v in o["fields"].items()) + ")"
         for o in c["objs"]) + ")"
     dom = "(dom" + "".join(f" (obj {i})" for i in c["dom"]) + ")"
-    return f"(m (pat {sx_pat(c['pat'])}) {dom} {objs} {SUB_SX} {SCHEMA_SX})"
+    steps = ""
+    if c.get("steps"):
+        steps = " (steps" + "".join(" (st" + "".join(" " + sx_edit(e) for e in st) + ")" for st in c["steps"]) + ")"
+    return f"(m (pat {sx_pat(c['pat'])}) {dom} {objs} {SUB_SX} {SCHEMA_SX}{steps})"
+
+
+def sx_obj(o) -> str:
+    return (f"(o {o['cls']} {_b(VEQ[o['cls']])}" +
+            "".join(f" ({k} {sx_val(v)})" for k, v in o["fields"].items()) + ")")
+
+
+# edit := ("set", i, attr, value, in_place) | ("new", objspec) | ("free", i)
+# a step is the list of edits made between two evaluations of the SAME query object
+def sx_edit(e) -> str:
+    if e[0] == "set":
+        return f"({'setip' if e[4] else 'set'} {e[1]} {e[2]} {sx_val(e[3])})"
+    if e[0] == "new":
+        return f"(new {sx_obj(e[1])})"
+    if e[0] == "free":
+        return f"(free {e[1]})"
+    raise ValueError(e)
 
 
 # ---------------------------------------------------------------------------------------------- parsing back
@@ -171,11 +203,26 @@ def parse_case(line: str):
     s = G.parse_sexp(line)
     assert s[0] == "m"
     d = {x[0]: x[1:] for x in s[1:]}
-    return {
+    def p_obj(o):
+        return {"cls": int(o[1]), "fields": {f[0]: _p_val(f[1]) for f in o[3:]}}
+
+    def p_edit(e):
+        if e[0] in ("set", "setip"):
+            return ("set", int(e[1]), e[2], _p_val(e[3]), e[0] == "setip")
+        if e[0] == "new":
+            return ("new", p_obj(e[1]))
+        if e[0] == "free":
+            return ("free", int(e[1]))
+        raise ValueError(e)
+
+    out = {
         "pat": _p_pat(d["pat"][0]),
         "dom": [int(x[1]) for x in d["dom"]],
-        "objs": [{"cls": int(o[1]), "fields": {f[0]: _p_val(f[1]) for f in o[3:]}} for o in d["objs"]],
+        "objs": [p_obj(o) for o in d["objs"]],
     }
+    if "steps" in d:
+        out["steps"] = [[p_edit(e) for e in st[1:]] for st in d["steps"]]
+    return out
 
 
 def revive(case: Case) -> Case:
@@ -311,13 +358,50 @@ def _reset() -> None:
     K["SG"]()
 
 
+SEP = " | "
+
+
+def apply_edit(e, objs) -> None:
+    """one edit on the REAL objects (the object table `objs` is the harness' only strong reference besides the domain
+    list, pattern literals and the attributes of other objects)"""
+    C = _krrood()["C"]
+    if e[0] == "set":
+        _, i, attr, val, in_place = e
+        new = real_val(val, attr, objs)
+        if in_place and isinstance(new, list) and isinstance(getattr(objs[i], attr), list):
+            getattr(objs[i], attr)[:] = new
+        else:
+            setattr(objs[i], attr, new)
+    elif e[0] == "new":
+        o = e[1]
+        objs.append(C.CLASSES[o["cls"]](**{a: real_val(v, a, objs) for a, v in o["fields"].items()}))
+    elif e[0] == "free":
+        objs[e[1]] = None
+    else:
+        raise ValueError(e)
+
+
+def apply_step(st, objs) -> None:
+    for e in st:
+        apply_edit(e, objs)
+    if any(e[0] == "free" for e in st):
+        import gc
+        gc.collect(1)  # young generations only (cheap): the freed addresses become available to the objects
+        # created next (id reuse); Symbol instances are acyclic, only evaluation garbage may hold them
+
+
+def _ids(objs):
+    return {id(o): i for i, o in enumerate(objs) if o is not None}
+
+
 def _one(c) -> str:
+    """build the query ONCE; evaluate it; then, per step: edit the data, evaluate the same query object again"""
     K = _krrood()
     M, C = K["M"], K["C"]
+    steps = c.get("steps") or []
     try:
         _reset()
         objs = make_objects(c)
-        ids = {id(o): i for i, o in enumerate(objs)}
         p = c["pat"]
         dom = [objs[i] for i in c["dom"]]
         root = (M.entity_selection if p["sel"] else M.entity_matching)(C.CLASSES[p["cls"]], dom)
@@ -325,15 +409,32 @@ def _one(c) -> str:
         q = K["an"](m)
         desc = q._child_
         sel = list(desc.selected_variables)
-        rows = []
-        for r in q.evaluate():
-            if isinstance(desc, K["Entity"]):
-                rows.append(_row([r], ids))
-            else:
-                rows.append(_row([r.data[v].value for v in sel], ids))
-        return canon(rows)
     except Exception as e:  # noqa: BLE001
-        return "exc:" + type(e).__name__
+        return SEP.join(["exc:" + type(e).__name__] * (len(steps) + 1))
+
+    def evaluate() -> str:
+        try:
+            ids = _ids(objs)
+            rows = []
+            for r in q.evaluate():
+                if isinstance(desc, K["Entity"]):
+                    rows.append(_row([r], ids))
+                else:
+                    rows.append(_row([r.data[v].value for v in sel], ids))
+            r = None
+            return canon(rows)
+        except Exception as e:  # noqa: BLE001
+            return "exc:" + type(e).__name__
+
+    out = [evaluate()]
+    for st in steps:
+        try:
+            apply_step(st, objs)
+        except Exception as e:  # noqa: BLE001
+            out.append("harness-error:" + type(e).__name__)
+            continue
+        out.append(evaluate())
+    return SEP.join(out)
 
 
 # ---------------------------------------------------------------------------------------------- independent oracle
@@ -401,17 +502,25 @@ def n_sel(assigns) -> int:
 def oracle_rows(c) -> str:
     _reset()
     objs = make_objects(c)
-    ids = {id(o): i for i, o in enumerate(objs)}
     p = c["pat"]
     keep_root = p["sel"] or n_sel(p["as"]) == 0
-    rows = []
-    for i in c["dom"]:
-        x = objs[i]
-        if not _o_type(p["cls"], x):
-            continue
-        for r in _o_rows_assigns(p["as"], x, objs):
-            rows.append(_row(((x,) if keep_root else ()) + r, ids))
-    return canon(rows)
+
+    def state() -> str:
+        ids = _ids(objs)
+        rows = []
+        for i in c["dom"]:
+            x = objs[i]
+            if not _o_type(p["cls"], x):
+                continue
+            for r in _o_rows_assigns(p["as"], x, objs):
+                rows.append(_row(((x,) if keep_root else ()) + r, ids))
+        return canon(rows)
+
+    out = [state()]
+    for st in c.get("steps") or []:
+        apply_step(st, objs)
+        out.append(state())
+    return SEP.join(out)
 
 
 _stats: Dict[str, int] = {"oracle_checked": 0}
@@ -442,6 +551,12 @@ def run_impl(cases):
             _count("in_scope_of_C11_equiv_partial" if d.get("nsel") == "0" else "clean_with_selected_parts")
         if d.get("conf") != "true":
             _count("world_not_conforming")
+        if c.payload.get("steps"):
+            _count("reevaluation_cases")
+            _count("reevaluations_of_the_same_query_object", len(c.payload["steps"]))
+            segs = d["spec"].split(SEP)
+            if len(set(segs)) > 1:
+                _count("reevaluation_cases_whose_specified_answer_changes")
         if d.get("eql") == "ok":
             _count("tree_shaped_cases_agreeing_with_M-EQL_evaluator")
         elif d.get("eql") == "differs":
@@ -459,6 +574,9 @@ def extra_coverage():
 
 
 def nontrivial(case: Case, spec: str) -> bool:
+    if SEP in spec:
+        segs = spec.split(SEP)
+        return any(nontrivial(case, x) for x in segs if x) or len(set(segs)) > 1
     if spec.startswith("exc:") or not spec:
         return False
     c = revive(case).payload
@@ -647,6 +765,209 @@ def pat_tags(p, depth=1, acc=None):
     return acc
 
 
+def pat_objs(p, acc=None) -> set:
+    """indices of the objects a pattern mentions in its literals (they stay referenced by the query)"""
+    acc = acc if acc is not None else set()
+    for _a, av in p["as"]:
+        if av[0] in ("lit", "coll"):
+            v = av[1]
+            if v[0] == "obj":
+                acc.add(v[1])
+            elif v[0] == "objs":
+                acc.update(v[1])
+        else:
+            pat_objs(av[1], acc)
+    return acc
+
+
+def pat_attrs(p, acc=None) -> set:
+    """the attribute names a pattern constrains (at any depth)"""
+    acc = acc if acc is not None else set()
+    for a, av in p["as"]:
+        acc.add(a)
+        if av[0] == "nested":
+            pat_attrs(av[1], acc)
+    return acc
+
+
+def _refs(o) -> set:
+    out = set()
+    for v in o["fields"].values():
+        if v[0] == "obj":
+            out.add(v[1])
+        elif v[0] == "objs":
+            out.update(v[1])
+    return out
+
+
+def table_ok(cur, alive) -> bool:
+    """every live object's references are live objects of the declared class (the edited data still conforms)"""
+    for i in alive:
+        o = cur[i]
+        for n, k, t in FIELDS[o["cls"]]:
+            v = o["fields"].get(n)
+            if v is None:
+                return False
+            if k in ("int", "str"):
+                ok = v[0] == "int"
+            elif k == "bcoll":
+                ok = v[0] == "list"
+            elif k == "ref":
+                ok = v[0] == "obj" and v[1] in alive and is_sub(cur[v[1]]["cls"], t)
+            else:
+                ok = v[0] == "objs" and all(j in alive and is_sub(cur[j]["cls"], t) for j in v[1])
+            if not ok:
+                return False
+    return True
+
+
+def simulate(c):
+    """the object table after each step, or None when a step is not executable / leaves non-conforming data"""
+    cur = [{"cls": o["cls"], "fields": dict(o["fields"])} for o in c["objs"]]
+    alive = set(range(len(cur)))
+    pinned = set(c["dom"]) | pat_objs(c["pat"])
+    states = []
+    for st in c.get("steps") or []:
+        for e in st:
+            if e[0] == "set":
+                if e[1] not in alive or field_info(cur[e[1]]["cls"], e[2]) is None:
+                    return None
+                cur[e[1]]["fields"][e[2]] = e[3]
+            elif e[0] == "new":
+                cur.append({"cls": e[1]["cls"], "fields": dict(e[1]["fields"])})
+                alive.add(len(cur) - 1)
+            else:
+                if e[1] not in alive or e[1] in pinned:
+                    return None
+                alive.discard(e[1])
+        if not table_ok(cur, alive):
+            return None
+        states.append(([{"cls": o["cls"], "fields": dict(o["fields"])} for o in cur], set(alive)))
+    return states
+
+
+def gen_steps(rng, c):
+    """1-2 steps of 1-3 edits each: new scalar values, new lists (also in place), other or NEW nested objects, and
+    objects that are unlinked, dropped and replaced by newly created ones (their addresses may be reused)"""
+    cur = [{"cls": o["cls"], "fields": dict(o["fields"])} for o in c["objs"]]
+    alive = set(range(len(cur)))
+    pinned = set(c["dom"]) | pat_objs(c["pat"])
+
+    def pool(cls):
+        return [i for i in sorted(alive) if is_sub(cur[i]["cls"], cls)]
+
+    def near():
+        """domain elements and what they reference: edits there are the ones a query can see"""
+        out = [i for i in c["dom"] if i in alive]
+        for _ in range(2):
+            out += [j for i in list(out) for j in sorted(_refs(cur[i])) if j in alive]
+        return out or sorted(alive)
+
+    watched = pat_attrs(c["pat"])
+
+    def e_set(i=None):
+        i = rng.choice(near() if rng.random() < 0.8 else sorted(alive)) if i is None else i
+        fields = FIELDS[cur[i]["cls"]]
+        hot = [f for f in fields if f[0] in watched]  # mostly edit what the pattern looks at
+        n, k, t = rng.choice(hot if hot and rng.random() < 0.75 else fields)
+        in_place = False
+        if k in ("int", "str"):
+            v = ("int", gen_scalar(rng, cur, n))
+        elif k == "bcoll":
+            v = ("list", [rng.randint(0, 2) for _ in range(rng.randint(0, 2))])
+            in_place = rng.random() < 0.4
+        elif k == "ref":
+            cand = pool(t)
+            if not cand:
+                return []
+            v = ("obj", rng.choice(cand))
+        else:
+            cand = pool(t)
+            v = ("objs", [rng.choice(cand) for _ in range(rng.randint(0, 3))] if cand else [])
+            in_place = rng.random() < 0.4
+        cur[i]["fields"][n] = v
+        return [("set", i, n, v, in_place)]
+
+    def new_obj(cls):
+        if cls in (0, 1):
+            f = {"name": ("int", rng.randint(0, 1)), "size": ("int", rng.randint(0, 2))}
+        else:
+            hs = pool(0)
+            if not hs:
+                return None
+            f = {"handle": ("obj", rng.choice(hs)), "size": ("int", rng.randint(0, 2)),
+                 "tags": ("list", [rng.randint(0, 2) for _ in range(rng.randint(0, 2))]),
+                 "spare": ("objs", [rng.choice(hs) for _ in range(rng.randint(0, 2))])}
+            if cls == 3:
+                f["depth"] = ("int", rng.randint(0, 1))
+        return {"cls": cls, "fields": f}
+
+    def link(j):
+        """make the object `j` reachable: assign it to a reference / put it into a collection of a near object"""
+        spots = [(i, n, k) for i in near() for n, k, t in FIELDS[cur[i]["cls"]]
+                 if k in ("ref", "relcoll") and is_sub(cur[j]["cls"], t)]
+        if not spots:
+            return []
+        i, n, k = rng.choice(spots)
+        if k == "ref":
+            v, in_place = ("obj", j), False
+        else:
+            old = list(cur[i]["fields"][n][1])
+            old.insert(rng.randint(0, len(old)), j)
+            v, in_place = ("objs", old[:4]) if j in old[:4] else ("objs", [j] + old[:3]), rng.random() < 0.4
+        cur[i]["fields"][n] = v
+        return [("set", i, n, v, in_place)]
+
+    def e_new(cls=None):
+        o = new_obj(rng.choice([0, 0, 1, 2, 2, 3]) if cls is None else cls)
+        if o is None:
+            return []
+        cur.append(o)
+        alive.add(len(cur) - 1)
+        return [("new", {"cls": o["cls"], "fields": dict(o["fields"])})] + link(len(cur) - 1)
+
+    def e_free():
+        cand = [i for i in sorted(alive) if i not in pinned and cur[i]["cls"] != 4]
+        rng.shuffle(cand)
+        for x in cand:
+            edits, ok = [], True
+            for y in sorted(alive):
+                if y == x:
+                    continue
+                for n, k, t in FIELDS[cur[y]["cls"]]:
+                    v = cur[y]["fields"][n]
+                    if k == "ref" and v[1] == x:
+                        repl = [z for z in pool(t) if z != x]
+                        if not repl:
+                            ok = False
+                            break
+                        edits.append(("set", y, n, ("obj", rng.choice(repl)), False))
+                    elif k == "relcoll" and x in v[1]:
+                        edits.append(("set", y, n, ("objs", [z for z in v[1] if z != x]), rng.random() < 0.4))
+                if not ok:
+                    break
+            if not ok:
+                continue
+            for e in edits:
+                cur[e[1]]["fields"][e[2]] = e[3]
+            alive.discard(x)
+            out = edits + [("free", x)]
+            if rng.random() < 0.75:  # a new object of the same class right away: it may get the freed address
+                out += e_new(cur[x]["cls"])
+            return out
+        return []
+
+    steps = []
+    for _ in range(rng.choice([1, 1, 2])):
+        st = []
+        for _ in range(rng.randint(1, 3)):
+            r = rng.random()
+            st += e_set() if r < 0.6 else e_new() if r < 0.8 else e_free()
+        if st:
+            steps.append(st)
+    return steps
+
+
 def gen_case(rng):
     objs, hs, ds, cs = gen_world(rng)
     T = rng.choice([4, 4, 4, 4, 4, 4, 2, 2, 2, 3, 0, 1])
@@ -660,7 +981,13 @@ def gen_case(rng):
     if rng.random() < 0.03:
         dom = []
     pat = gen_pat(rng, objs, T, 2, allow_f4=True, root=True)
-    return {"pat": pat, "dom": dom, "objs": objs}
+    c = {"pat": pat, "dom": dom, "objs": objs}
+    if rng.random() < 0.35:  # the same query object evaluated again after the data was edited
+        steps = gen_steps(rng, c)
+        if steps:
+            c["steps"] = steps
+            assert simulate(c) is not None, "generated steps must be executable and keep the data conforming"
+    return c
 
 
 def generate(rng, tier, n):
@@ -673,6 +1000,11 @@ def generate(rng, tier, n):
             tags.append("root-selected")
         if not c["dom"]:
             tags.append("empty-domain")
+        if c.get("steps"):
+            tags.append("reevaluated-x%d" % len(c["steps"]))
+            kinds = {("set-in-place" if e[4] else "set-" + e[3][0]) if e[0] == "set" else e[0]
+                     for st in c["steps"] for e in st}
+            tags += sorted("edit-" + k for k in kinds)
         out.append(Case(sx_case(c), tuple(tags), "random", c))
     return out
 
@@ -702,14 +1034,40 @@ def _shrink_pat(p):
                 yield {**p, "as": p["as"][:i] + [(a, ("lit", v))] + p["as"][i + 1:]}
 
 
+def _shrink_steps(c):
+    steps = c.get("steps") or []
+    for i in range(len(steps) - 1, -1, -1):
+        yield steps[:i] + steps[i + 1:]
+    for i, st in enumerate(steps):
+        if len(st) > 1:
+            for j in range(len(st)):
+                yield steps[:i] + [st[:j] + st[j + 1:]] + steps[i + 1:]
+        for j, e in enumerate(st):
+            if e[0] == "set" and e[4]:
+                yield steps[:i] + [st[:j] + [e[:4] + (False,)] + st[j + 1:]] + steps[i + 1:]
+
+
 def shrink(case: Case):
     c = revive(case).payload
+    if c.get("steps"):
+        for steps in _shrink_steps(c):
+            d = {k: v for k, v in c.items() if k != "steps"}
+            if steps:
+                d["steps"] = steps
+                if simulate(d) is None:
+                    continue
+            yield Case(sx_case(d), case.tags, "shrink", d)
+    def ok(d) -> bool:
+        return not d.get("steps") or simulate(d) is not None
+
     for i in range(len(c["dom"])):
         d = {**c, "dom": c["dom"][:i] + c["dom"][i + 1:]}
-        yield Case(sx_case(d), case.tags, "shrink", d)
+        if ok(d):
+            yield Case(sx_case(d), case.tags, "shrink", d)
     for p in _shrink_pat(c["pat"]):
         d = {**c, "pat": p}
-        yield Case(sx_case(d), case.tags, "shrink", d)
+        if ok(d):
+            yield Case(sx_case(d), case.tags, "shrink", d)
     # shorten collections inside objects
     for i, o in enumerate(c["objs"]):
         for a, v in o["fields"].items():
@@ -717,4 +1075,5 @@ def shrink(case: Case):
                 for j in range(len(v[1])):
                     o2 = {"cls": o["cls"], "fields": {**o["fields"], a: (v[0], v[1][:j] + v[1][j + 1:])}}
                     d = {**c, "objs": c["objs"][:i] + [o2] + c["objs"][i + 1:]}
-                    yield Case(sx_case(d), case.tags, "shrink", d)
+                    if ok(d):
+                        yield Case(sx_case(d), case.tags, "shrink", d)
